@@ -51,9 +51,19 @@ pub trait BesselDual: DualNum<f64> + Copy {
 
     /// 2nd order bessel function of the first kind
     fn bessel_j2(self) -> Self {
-        if self.re().abs() < 1.0e-5 {
+        if self.re().abs() < 1.0 {
+            // Maclaurin series in z = x^2 (the recurrence below cancels for small |x|):
+            // J2(x) = z/8 * sum_k c_k z^k with c_0 = 1, c_k = -c_{k-1} / (4 k (k + 2))
             let z = self * self;
-            z / 8.0 * (Self::one() - z / 12.0 + z * z / 384.0)
+            let mut c = [1.0; 12];
+            for k in 1..12 {
+                c[k] = -c[k - 1] / (4 * k * (k + 2)) as f64;
+            }
+            let mut r = Self::from(c[11]);
+            for ck in c[..11].iter().rev() {
+                r = r * z + *ck;
+            }
+            z / 8.0 * r
         } else {
             self.bessel_j1() * 2.0 / self - self.bessel_j0()
         }
